@@ -88,6 +88,10 @@ type inliner struct {
 	changed  map[*ast.File]bool
 	curFile  *ast.File
 	curFunc  string
+	curDecl  *ast.FuncDecl
+	// imports that the bodies inlined into a function need (the copies carry no type
+	// information, so they are remembered here for the day the function is itself inlined)
+	extraImports map[*ast.FuncDecl]map[string]string
 	inlinedN map[*types.Func]int
 	keptN    map[*types.Func]int
 }
@@ -148,7 +152,24 @@ func normaliseSources(repoDir string, env []string, buildFlags []string) (map[st
 // the previous round, whose changed files are in `overlay`). It returns the accumulated
 // overlay (nil when this round changed nothing) and whether the inliner changed something.
 func normaliseRound(repoDir string, orig, cur *packages.Package, overlay map[string][]byte, base map[string]bool, rep *inlineReport, round int) (map[string][]byte, bool, error) {
-	pkg, preOverlay := preNormalise(orig, cur, overlay, rep, round)
+	{
+		// renamed baseline functions are recognised on the round's input already, so that the
+		// pre-passes know which functions are new helpers
+		tmp := &inliner{pkg: cur, info: cur.TypesInfo, decls: map[*types.Func]*ast.FuncDecl{}, rep: &inlineReport{}}
+		for _, f := range cur.Syntax {
+			for _, d := range f.Decls {
+				if fd, ok := d.(*ast.FuncDecl); ok && fd.Body != nil {
+					if obj, ok := cur.TypesInfo.Defs[fd.Name].(*types.Func); ok {
+						tmp.decls[obj] = fd
+					}
+				}
+			}
+		}
+		for k := range renamedBaseline(tmp, base) {
+			base[k] = true
+		}
+	}
+	pkg, preOverlay := preNormalise(orig, cur, overlay, rep, round, base)
 	in := &inliner{pkg: pkg, info: pkg.TypesInfo, fset: pkg.Fset, n: round * 100000, decls: map[*types.Func]*ast.FuncDecl{}, fileOf: map[*ast.FuncDecl]*ast.File{},
 		cand: map[*types.Func]bool{}, why: map[*types.Func]string{}, rep: rep, changed: map[*ast.File]bool{}, inlinedN: map[*types.Func]int{}, keptN: map[*types.Func]int{}}
 	for _, f := range pkg.Syntax {
@@ -336,6 +357,7 @@ func normaliseRound(repoDir string, orig, cur *packages.Package, overlay map[str
 		fd := in.decls[f]
 		in.curFile = in.fileOf[fd]
 		in.curFunc = declKey(fd)
+		in.curDecl = fd
 		in.processBlock(fd.Body, fd)
 	}
 	// function literals in package-level variable initialisers (the table builders, cobra commands)
@@ -346,6 +368,7 @@ func normaliseRound(repoDir string, orig, cur *packages.Package, overlay map[str
 				ast.Inspect(gd, func(n ast.Node) bool {
 					if fl, ok := n.(*ast.FuncLit); ok {
 						in.curFunc = "package-level function literal"
+						in.curDecl = nil
 						in.processBlock(fl.Body, nil)
 						return false
 					}
@@ -1198,6 +1221,20 @@ func (in *inliner) expand(ce *ast.CallExpr, g *types.Func, lhs []ast.Expr, tok t
 		out = append(out, tail)
 	}
 	// imports of the callee's file that the caller's file lacks
+	for path, name := range in.extraImports[fd] {
+		needImports[path] = name
+	}
+	if in.curDecl != nil {
+		if in.extraImports == nil {
+			in.extraImports = map[*ast.FuncDecl]map[string]string{}
+		}
+		if in.extraImports[in.curDecl] == nil {
+			in.extraImports[in.curDecl] = map[string]string{}
+		}
+		for path, name := range needImports {
+			in.extraImports[in.curDecl][path] = name
+		}
+	}
 	for path, name := range needImports {
 		have := false
 		for _, imp := range in.curFile.Imports {
